@@ -639,6 +639,173 @@ fn argument_declarations(r: &mut Report) {
     }
 }
 
+/// (endpoint -> argument name -> `safe`) for the sync and the async trait
+fn read_named_flags(file: &std::path::Path, svc: &str) -> Result<[BTreeMap<String, BTreeMap<String, bool>>; 2], String> {
+    let text = std::fs::read_to_string(file).map_err(|e| format!("{}: {}", file.display(), e))?;
+    let ast = syn::parse_file(&text).map_err(|e| e.to_string())?;
+    let mut out = [BTreeMap::new(), BTreeMap::new()];
+    for item in &ast.items {
+        if let syn::Item::Trait(t) = item {
+            let which = if t.ident == svc {
+                0
+            } else if t.ident == format!("Async{}", svc) {
+                1
+            } else {
+                continue;
+            };
+            for it in &t.items {
+                if let syn::TraitItem::Fn(f) = it {
+                    let mut flags = BTreeMap::new();
+                    for arg in &f.sig.inputs {
+                        if let syn::FnArg::Typed(pt) = arg {
+                            let name = match &*pt.pat {
+                                syn::Pat::Ident(i) => i.ident.to_string(),
+                                _ => continue,
+                            };
+                            for a in &pt.attrs {
+                                let p = a.path();
+                                if p.is_ident("body") || p.is_ident("path") || p.is_ident("query") || p.is_ident("header") {
+                                    let mut safe = false;
+                                    if let syn::Meta::List(l) = &a.meta {
+                                        for tt in l.tokens.clone() {
+                                            if let proc_macro2::TokenTree::Ident(id) = tt {
+                                                if id == "safe" {
+                                                    safe = true;
+                                                }
+                                            }
+                                        }
+                                    }
+                                    flags.insert(name.clone(), safe);
+                                }
+                            }
+                        }
+                    }
+                    out[which].insert(f.sig.ident.to_string(), flags);
+                }
+            }
+        }
+    }
+    Ok(out)
+}
+
+/// an argument's marker depends on that argument alone: path / query / header arguments of safe
+/// and non-safe types next to every kind of body (none, binary, alias of binary, optional
+/// binary, safe / unsafe object), next to siblings of the opposite safety, with header or cookie
+/// auth, the body listed first or last
+fn argument_siblings(r: &mut Report) {
+    let types = vec![
+        json!({"type": "enum", "enum": {"typeName": {"name": "E", "package": "com.verif"}, "values": [{"value": "A"}]}}),
+        json!({"type": "alias", "alias": {"typeName": {"name": "SafeAlias", "package": "com.verif"}, "alias": prim("STRING"), "safety": "SAFE"}}),
+        json!({"type": "alias", "alias": {"typeName": {"name": "DnlAlias", "package": "com.verif"}, "alias": prim("STRING"), "safety": "DO_NOT_LOG"}}),
+        json!({"type": "alias", "alias": {"typeName": {"name": "BinAlias", "package": "com.verif"}, "alias": prim("BINARY")}}),
+        json!({"type": "object", "object": {"typeName": {"name": "SafeObj", "package": "com.verif"}, "fields": [{"fieldName": "e", "type": tref("E")}]}}),
+        json!({"type": "object", "object": {"typeName": {"name": "UnsafeObj", "package": "com.verif"}, "fields": [{"fieldName": "s", "type": prim("STRING")}]}}),
+    ];
+    // (tag, type, safe by type)
+    let params: Vec<(&str, Value, bool)> = vec![("enum", tref("E"), true), ("str", prim("STRING"), false), ("safeAlias", tref("SafeAlias"), true), ("dnl", tref("DnlAlias"), false), ("rid", prim("RID"), false)];
+    let bodies: Vec<(&str, Option<Value>, bool)> = vec![
+        ("nobody", None, false),
+        ("binary", Some(prim("BINARY")), false),
+        ("binAlias", Some(tref("BinAlias")), false),
+        ("optBinary", Some(json!({"type": "optional", "optional": {"itemType": prim("BINARY")}})), false),
+        ("safeObj", Some(tref("SafeObj")), true),
+        ("unsafeObj", Some(tref("UnsafeObj")), false),
+    ];
+    let decls: Vec<(&str, Value, Box<dyn Fn(bool) -> bool>)> = vec![("none", json!({}), Box::new(|t| t)), ("SAFE", json!({"safety": "SAFE"}), Box::new(|_| true)), ("UNSAFE", json!({"safety": "UNSAFE"}), Box::new(|_| false))];
+    let mut endpoints = vec![];
+    let mut expect: Vec<(String, String, String, bool)> = vec![];
+    let mut n = 0;
+    for (bi, (bname, body, body_safe)) in bodies.iter().enumerate() {
+        for (pi, (pname, pty, psafe)) in params.iter().enumerate() {
+            for (di, (dname, extra, rule)) in decls.iter().enumerate() {
+                for auth in [None, Some("header"), Some("cookie")] {
+                    for body_first in [false, true] {
+                        if (auth.is_some() || body_first) && (di != 0 && pi > 1) {
+                            continue;
+                        }
+                        n += 1;
+                        let ename = format!("s{}", n);
+                        let mk = |name: &str, ty: &Value, kind: Value, extra: &Value| {
+                            let mut a = json!({"argName": name, "type": ty, "paramType": kind, "markers": [], "tags": []});
+                            for (k, v) in extra.as_object().unwrap() {
+                                a[k] = v.clone();
+                            }
+                            a
+                        };
+                        // the judged argument in each of the three positions + a sibling of the opposite type safety
+                        let (sib_ty, sib_safe) = if *psafe { (prim("STRING"), false) } else { (tref("E"), true) };
+                        let mut args = vec![
+                            mk("pathArg", pty, json!({"type": "path", "path": {}}), extra),
+                            mk("queryArg", pty, json!({"type": "query", "query": {"paramId": "q"}}), extra),
+                            mk("headerArg", pty, json!({"type": "header", "header": {"paramId": "X-H"}}), extra),
+                            mk("sibling", &sib_ty, json!({"type": "query", "query": {"paramId": "sib"}}), &json!({})),
+                        ];
+                        if let Some(b) = body {
+                            let ba = mk("bodyArg", b, json!({"type": "body", "body": {}}), &json!({}));
+                            if body_first {
+                                args.insert(0, ba);
+                            } else {
+                                args.push(ba);
+                            }
+                        }
+                        let mut ep = json!({"endpointName": ename, "httpMethod": "POST", "httpPath": format!("/s/{}/{{pathArg}}", n), "args": args, "markers": [], "tags": []});
+                        match auth {
+                            Some("header") => ep["auth"] = json!({"type": "header", "header": {}}),
+                            Some("cookie") => ep["auth"] = json!({"type": "cookie", "cookie": {"cookieName": "T"}}),
+                            _ => {}
+                        }
+                        endpoints.push(ep);
+                        let what = format!("{}/{} next to body {} (auth {:?}, body first {})", pname, dname, bname, auth, body_first);
+                        for a in ["path_arg", "query_arg", "header_arg"] {
+                            expect.push((ename.clone(), a.to_string(), what.clone(), rule(*psafe)));
+                        }
+                        expect.push((ename.clone(), "sibling".to_string(), format!("sibling of {}", what), sib_safe));
+                        if body.is_some() {
+                            expect.push((ename.clone(), "body_arg".to_string(), format!("body {} of {}", bname, what), *body_safe));
+                        }
+                        let _ = (bi, pi, di);
+                    }
+                }
+            }
+        }
+    }
+    let ir = json!({"version": 1, "errors": [], "types": types, "services": [{"serviceName": {"name": "Sib", "package": "com.verif"}, "endpoints": endpoints}], "extensions": {}});
+    let dir = scratch("c08-siblings");
+    let ir_path = dir.join("ir.json");
+    std::fs::write(&ir_path, serde_json::to_vec(&ir).unwrap()).unwrap();
+    let out = dir.join("out");
+    if let Err(e) = conjure_codegen::Config::new().generate_files(&ir_path, &out) {
+        r.caps_hit.push(format!("generator failed on the argument-sibling IR: {}", e));
+        let _ = std::fs::remove_dir_all(&dir);
+        return;
+    }
+    let flags = read_named_flags(&out.join("com/verif/sib.rs"), "Sib");
+    let _ = std::fs::remove_dir_all(&dir);
+    let flags = match flags {
+        Ok(f) => f,
+        Err(e) => {
+            r.caps_hit.push(e);
+            return;
+        }
+    };
+    for (ename, arg, what, want) in expect {
+        r.states += 1;
+        for (ti, tn) in ["sync", "async"].iter().enumerate() {
+            r.evaluations += 1;
+            r.transitions += 1;
+            match flags[ti].get(&ename).and_then(|f| f.get(&arg)) {
+                Some(got) if *got == want => r.outcome("argument-declaration:agrees"),
+                Some(got) => r.violation(
+                    format!("C08|argument-sibling|{}|{}|{}", arg, what, tn),
+                    format!("{} of endpoint {}: {} is {}marked safe in the {} trait, expected {}", arg, ename, what, if *got { "" } else { "not " }, tn, if want { "safe" } else { "not safe" }),
+                    json!({"argument_sibling": what}),
+                ),
+                None => r.caps_hit.push(format!("argument {} of endpoint {} missing from the {} trait", arg, ename, tn)),
+            }
+        }
+    }
+}
+
 pub fn run(args: &Args) -> Report {
     let mut report = Report::new("C08", "model_checking");
     let thorough = args.tier.is_thorough();
@@ -664,7 +831,9 @@ pub fn run(args: &Args) -> Report {
             rr.exhaustive = false;
             return rr;
         }
-        if want.is_empty() {
+        if v["case"].get("argument_sibling").is_some() {
+            argument_siblings(&mut report);
+        } else if want.is_empty() {
             argument_declarations(&mut report);
         } else {
             let mut extra = vec![];
@@ -692,6 +861,7 @@ pub fn run(args: &Args) -> Report {
         report.merge(p);
     }
     argument_declarations(&mut report);
+    argument_siblings(&mut report);
     let lens: Vec<usize> = if thorough { vec![2, 3, 16, 64, 100, 127, 128, 129, 130, 200, 255, 256, 257, 300, 513] } else { vec![2, 16, 127, 128, 129, 130, 257] };
     report.bound("chain_lengths", json!(lens));
     let chain_report = std::thread::Builder::new().stack_size(256 << 20).spawn(move || {
